@@ -144,7 +144,23 @@ def labels_from_desc(desc):
     return [common.LABEL_POOLS[desc[0]][i] for i in desc[1:]]
 
 
-def validate(out, wd, traces, fam, label, trace_module="ModelObjTrace", invs=TRACE_INVS, pid_prefix=""):
+def validate(out, wd, traces, fam, label, trace_module="ModelObjTrace", invs=TRACE_INVS, pid_prefix="", chunk_steps=40000):
+    """TLC validates recorded histories; large sets go in chunks (one TLC run each): TLC keeps the whole deserialised file as
+    values in memory and crawls beyond ~10^5 steps"""
+    chunk, n, r = [], 0, None
+    for t in traces:
+        chunk.append(t)
+        n += len(t["steps"])
+        if n >= chunk_steps:
+            r = _validate(out, wd, chunk, fam, label, trace_module, invs, pid_prefix)
+            chunk, n = [], 0
+    if chunk or r is None:
+        r = _validate(out, wd, chunk, fam, label, trace_module, invs, pid_prefix)
+    return r
+
+
+def _validate(out, wd, traces, fam, label, trace_module, invs, pid_prefix):
+    traces = [dict(t, tid=i + 1) for i, t in enumerate(traces)]
     name, k1, k2, labels = fam
     tf = os.path.join(wd, "traces_%s_%s.ndjson" % (name, label))
     common.write_ndjson(tf, traces)
